@@ -65,18 +65,19 @@ Fixpoint set_nth (l : list N) (i : nat) (x : N) : option (list N) :=
 Definition le_u64 (p : list N) : N := fold_right (fun b acc => b + 256 * acc) 0 p.
 Definition address_value (callsign : list N) : N := le_u64 (rev callsign).
 
-(** loop condition: encoded && index != result.size() - k  (second conjunct absent when the source has none) *)
-Definition dec_continue (encoded : N) (index : nat) : bool :=
+(** loop condition: encoded && index != result.size() - k  (second conjunct absent when the source has none);
+    the bound is a parameter so that the loop without it (the code before fix 766f992) can be stated too *)
+Definition dec_continue_with (reserve : option nat) (encoded : N) (index : nat) : bool :=
   negb (encoded =? 0) &&
-  match ConstsCallsign.dec_index_reserve with
+  match reserve with
   | Some k => negb (Nat.eqb index (ConstsCallsign.call_size - k))
   | None => true
   end.
 
 (** while (...) { result[index++] = callsign_map[encoded % 40]; encoded /= 40; }
     on explicit fuel; [None] = fuel exhausted, table index or array index out of range *)
-Fixpoint decode_loop (fuel : nat) (encoded : N) (index : nat) (result : list N) : option (list N) :=
-  if dec_continue encoded index then
+Fixpoint decode_loop_with (reserve : option nat) (fuel : nat) (encoded : N) (index : nat) (result : list N) : option (list N) :=
+  if dec_continue_with reserve encoded index then
     match fuel with
     | O => None
     | S f =>
@@ -85,17 +86,23 @@ Fixpoint decode_loop (fuel : nat) (encoded : N) (index : nat) (result : list N) 
         | Some ch =>
             match set_nth result index ch with
             | None => None
-            | Some result' => decode_loop f (encoded / ConstsCallsign.dec_div) (S index) result'
+            | Some result' => decode_loop_with reserve f (encoded / ConstsCallsign.dec_div) (S index) result'
             end
         end
     end
   else Some result.
+
+Definition dec_continue := dec_continue_with ConstsCallsign.dec_index_reserve.
+Definition decode_loop := decode_loop_with ConstsCallsign.dec_index_reserve.
 
 Definition decode_fuel : nat := 64.
 
 Definition list_N_eqb (a b : list N) : bool :=
   Nat.eqb (length a) (length b) && forallb (fun p => fst p =? snd p) (combine a b).
 
-Definition decode_callsign (callsign : list N) : option (list N) :=
+Definition decode_callsign_with (reserve : option nat) (callsign : list N) : option (list N) :=
   if list_N_eqb callsign ConstsCallsign.broadcast_address then Some ConstsCallsign.broadcast_call
-  else decode_loop decode_fuel (address_value callsign) 0 (repeat 0 ConstsCallsign.call_size).
+  else decode_loop_with reserve decode_fuel (address_value callsign) 0 (repeat 0 ConstsCallsign.call_size).
+
+Definition decode_callsign (callsign : list N) : option (list N) :=
+  decode_callsign_with ConstsCallsign.dec_index_reserve callsign.
